@@ -250,8 +250,10 @@ class Materialised:
             if key in self._declared:
                 return
             self._declared.add(key)
-            inner = self.expr(spec["a"][0], at_mod=spec["mod"])
+            # the body of a string-valued alias is evaluated lazily: references inside stay bare
+            inner = self.expr(spec["a"][0], at_mod=spec["mod"], quote_refs=(k != "stralias"))
             n = spec["name"]
+            self.class_specs[key] = spec
             if k == "newtype":
                 src = f"{n} = typing.NewType({n!r}, {inner})\n"
             elif k == "alias":
@@ -1096,3 +1098,107 @@ def root_specs(**kw):
         return s
 
     return st.builds(wrap, base, st.integers(0, 14))
+
+
+# ------------------------------------------------------------------------------------------------
+# deterministic deep values for recursive programs (C07)
+# ------------------------------------------------------------------------------------------------
+
+class _Stop(Exception):
+    pass
+
+
+def deep_value(spec, mat: Materialised, d: int, fan: int = 2, _counter=None, _level=0):
+    """A valid value of `spec` whose recursion through `ref` edges is followed exactly `d` times along
+    every path (containers get `fan` elements on the first two levels, one below)."""
+    c = _counter if _counter is not None else itertools.count(1)
+    D = lambda s, dd=d, lv=_level: deep_value(s, mat, dd, fan, c, lv)  # noqa: E731
+    k = spec["k"]
+    if k == "scalar":
+        t = spec["t"]
+        n = next(c)
+        return {"int": n, "str": f"s{n}", "float": n + 0.5, "bool": bool(n % 2)}.get(t) if t in ("int", "str", "float", "bool") \
+            else eval(_SCALAR_DEFAULT[t], {"decimal": decimal, "fractions": fractions, "uuid": uuid, "pathlib": pathlib, "re": re, "datetime": datetime})  # noqa: S307
+    if k == "none":
+        return None
+    if k == "enum":
+        return list(mat.cls(spec))[0]
+    if k == "literal":
+        return spec["values"][0]
+    if k in ("newtype", "alias", "stralias", "final", "classvar"):
+        return D(spec["a"][0])
+    if k == "ref":
+        if d <= 0:
+            raise _Stop()
+        return deep_value(mat.resolve(spec), mat, d - 1, fan, c, _level + 1)
+    width = fan if _level < 2 else 1
+    # only the first element / first recursive field continues the full-depth chain; siblings get
+    # depth <= 1 so that the value grows linearly with d (a full tree would be exponential)
+    side = min(d, 1)
+    if k in ("list", "deque", "vtuple", "set", "frozenset"):
+        ctor = {"list": list, "deque": collections.deque, "vtuple": tuple, "set": set, "frozenset": frozenset}[k]
+        try:
+            return ctor([D(spec["a"][0], d if i == 0 else side) for i in range(width)])
+        except _Stop:
+            return ctor()
+    if k == "tuple":
+        return tuple(D(s) for s in spec["a"])
+    if k == "dict":
+        try:
+            return {f"k{i}": D(spec["a"][1], d if i == 0 else side) for i in range(width)} if strip(spec["a"][0]) == S("str") else {D(spec["a"][0]): D(spec["a"][1])}
+        except _Stop:
+            return {}
+    if k == "optional":
+        try:
+            return D(spec["a"][0])
+        except _Stop:
+            return None
+    if k == "union":
+        for m in spec["a"]:
+            if m["k"] == "none":
+                continue
+            try:
+                return D(m)
+            except _Stop:
+                continue
+        if any(m["k"] == "none" for m in spec["a"]):
+            return None
+        raise _Stop()
+    if k == "class":
+        C = mat.cls(spec)
+        kw = {}
+        spine_used = False
+        for f in spec["fields"]:
+            recursive = has_kind(f["t"], "ref", "class")
+            kw[f["n"]] = D(f["t"], d if (not recursive or not spine_used) else side)
+            spine_used = spine_used or recursive
+        return C(**kw)
+    raise ValueError(k)
+
+
+def value_depth(v) -> int:
+    """nesting depth of structured instances in v (iterative: deep values must not hit the C stack)."""
+    best = 0
+    stack = [(v, 0)]
+    seen = 0
+    while stack and seen < 200000:
+        x, d = stack.pop()
+        seen += 1
+        inc = 0
+        if dataclasses.is_dataclass(x) and not isinstance(x, type):
+            kids, inc = [getattr(x, f.name) for f in dataclasses.fields(x)], 1
+        elif isinstance(x, tuple) and hasattr(x, "_fields"):
+            kids, inc = list(x), 1
+        elif isinstance(x, dict):
+            kids = list(x.values())
+        elif isinstance(x, (list, tuple, set, frozenset, collections.deque)):
+            kids = list(x)
+        elif hasattr(x, "__dict__") and not isinstance(x, type):
+            kids, inc = list(vars(x).values()), 1
+        elif hasattr(type(x), "__slots__") and not isinstance(x, (int, str, float, bytes, type(None))):
+            kids, inc = [getattr(x, sl) for sl in type(x).__slots__ if hasattr(x, sl)], 1
+        else:
+            continue
+        best = max(best, d + inc)
+        stack.extend((k, d + inc) for k in kids)
+    return best
